@@ -31,7 +31,8 @@ RULE = ("schedules of 1-8 queued requests (GET/POST with bodies, unique path and
         "redirect Locations re-assign none / some / all of the keys, also over multi-hop chains; requests queued through Client.request WITHOUT qargs (default = copy of the requester's) with and without "
         "a query in their path, several queued before the earlier one is built; payload kinds per request (data= JSON, fargs= form, body= bytes, none) on "
         "GET/POST/PUT/PATCH/DELETE with explicit or default headers; reconnectable connectors (reconnect timer 1-12 passes of virtual "
-        "time) against servers that close after replies, requests queued and popped during the cutoff, redirects followed across a close.  A case is non-trivial when >= 3 requests were queued and some reply was delayed, "
+        "time) against servers that close after replies, requests queued and popped during the cutoff, redirects followed across a close; in ~45% of the cases the answers are consumed through Client.respond() "
+        "(after every pass / only at the end / in bursts).  A case is non-trivial when >= 3 requests were queued and some reply was delayed, "
         "fragmented or a redirect")
 MODELLED = ["response parsing (real Respondent) is abstracted to 'a complete reply with status s and Location l was "
             "consumed in this pass'; request building (real Requester) to the path that appears on the wire",
@@ -379,13 +380,27 @@ def run_impl(case):
                                   method=case.get("cmethod", "GET"))
         client.reopen()
         trace, escaped, bodies, snaps, ctsnaps = [], None, [], {}, {}
+        arrivals, takes = [], []   # every entry appended to .responses, in order; what each respond() returned
+
+        def take():
+            waiting = len(client.responses)
+            r = client.respond()   # the public accessor
+            if r is None:
+                takes.append([None, waiting])
+            else:
+                idx = [i for i, a in enumerate(arrivals) if a["request"] is r.request]
+                takes.append([idx[0] if idx else -1, waiting])
         events = list(case["events"])
         extra = 0
+        take_mode = case.get("take")   # None | "each" (after every pass) | "end" | ["take"] events in the schedule
         while events or extra < case.get("drain", 12):
             if events:
                 ev = events.pop(0)
             else:
                 ev = ["pass"]; extra += 1
+            if ev[0] == "take":
+                take()
+                continue
             if ev[0] == "enq":
                 t, m, q, pq = ev[1], ev_method(ev), ev_explicit(ev), ev_pathq(ev)
                 kw = {"path": f"/t{t}" + ("?" + q_text(pq) if pq else "")}
@@ -414,18 +429,26 @@ def run_impl(case):
                 from harness.core import exn_kind
                 escaped = [len(trace), exn_kind(ex), str(ex)[:80]]
                 break
+            narr = len(client.responses) - (before[0])   # entries appended in this pass (at most one)
+            for a in list(client.responses)[len(client.responses) - narr:] if narr > 0 else []:
+                arrivals.append(a)
+                bodies.append(bytes(a["body"]).hex())   # copy at arrival
             after = (len(client.responses), len(client.redirects))
-            while len(bodies) < len(client.responses):  # the bytearray is shared with the respondent: copy at arrival
-                bodies.append(bytes(client.responses[len(bodies)]["body"]).hex())
             # the reconnect timer fired in this pass: same connector object, new socket
             # (sockets opened in this pass, minus the one of a connector that redirect() created)
             refired = (net.nconn - nsock0 - (0 if client.connector is conn0 else 1)) > 0
             # the connector read the server's close in this pass (same connector object)
             cutnow = client.connector is conn0 and bool(client.connector.cutoff) and (refired or not cut0)
-            trace.append([after != before, bool(client.waited), len(client.requests), after[0], after[1], refired, cutnow])
+            trace.append([after != before, bool(client.waited), len(client.requests), after[0], after[1], refired, cutnow,
+                          len(arrivals)])
             tymist.tick()
+            if take_mode == "each":
+                take()
+        if take_mode == "end":
+            for _ in range(len(arrivals) + 2):
+                take()
         entries = []
-        for i, r in enumerate(client.responses):
+        for i, r in enumerate(arrivals):
             hist = [[h["status"], h["request"].get("tag")] for h in r.get("redirects", [])]
             entries.append({"status": r["status"], "tag": r["request"].get("tag"), "errored": bool(r["errored"]),
                             "history": hist, "path": r["request"].get("path"), "method": r["request"].get("method"),
@@ -437,7 +460,8 @@ def run_impl(case):
         for cid, sec, hi, path, verb, pay, ctk in net.wire:
             kind, num, q = split_target(path)
             wire.append([cid, bool(sec), hi, kind, num, verb, q, pay, ctk])
-        return {"snaps": {str(k): v for k, v in snaps.items()}, "ctsnaps": {str(k): v for k, v in ctsnaps.items()},
+        return {"takes": takes, "taken_each": take_mode == "each", "taken_end": take_mode == "end",
+                "snaps": {str(k): v for k, v in snaps.items()}, "ctsnaps": {str(k): v for k, v in ctsnaps.items()},
                 "trace": trace, "entries": entries, "wire": wire, "escaped": escaped, "unsent": len(client.connector.txbs),
                 "final": [bool(client.waited), len(client.requests), len(client.redirects)],
                 "conn_https": isinstance(client.connector, tcp.ClientTls), "replies_used": net.k,
@@ -469,11 +493,15 @@ def oracle(case, obs):
     it = iter(obs["trace"])
     nresp_before = 0
     for ev in case["events"] + [["pass"]] * (len(obs["trace"])):
+        if ev[0] == "take":
+            continue
         if ev[0] == "enq":
             qlen_prev += 1
             continue
         try:
-            changed, waited, qlen, nresp, nredir = next(it)[:5]
+            row = next(it)
+            changed, waited, qlen, nresp, nredir = row[:5]
+            nresp = row[7] if len(row) > 7 else nresp   # entries ever delivered (respond() may have consumed some)
         except StopIteration:
             break
         if qlen < qlen_prev:  # a request was popped in this pass
@@ -543,6 +571,15 @@ def oracle(case, obs):
             ((replies[e["target"][1]].get("loc") or {}).get("q") or [] if e["target"][1] < len(replies) else [])
         if e["target"][2] != want:
             return f"entry's request carries query {e['target'][2]} but was sent for target query {want}"
+    # the public accessor: the i-th answer Client.respond() hands out is the i-th entry (so the i-th queued request's),
+    # None only when nothing waits
+    got = [t[0] for t in obs.get("takes", []) if t[0] is not None]
+    if got != list(range(len(got))):
+        return (f"Client.respond() handed out entries {got} (arrival order indices): not oldest first, the i-th respond() "
+                f"does not return the i-th queued request's answer")
+    for t in obs.get("takes", []):
+        if (t[0] is None) != (t[1] == 0):
+            return f"Client.respond() returned {'None' if t[0] is None else 'an entry'} with {t[1]} entries waiting"
     # payloads: the body bytes and Content-Type the server received for request k, and the entry's request dict,
     # are exactly what was queued for request k (nothing of an earlier request's data=/fargs=/body=)
     evof = {ev[1]: ev for ev in case["events"] if ev[0] == "enq"}
@@ -669,6 +706,11 @@ def directed():
         # Client.request WITHOUT qargs, several queued before anything is built, earlier paths carry a query
         {"events": [["enq", 1, "GET", "none", [[0, 1]]], ["enq", 2, "GET", "none"], ["enq", 3, "GET", "none", [[1, 2]]], ["enq", 4, "GET", "none"]],
          "replies": [{}, {}, {}, {}]},
+        # the public accessor Client.respond(): after every pass / only at the end / in bursts
+        {"take": "each", "events": _sched([1, 2, 3]), "replies": [{}, {"delay": 2}, {}]},
+        {"take": "end", "events": _sched([1, 2, 3, 4]), "replies": [{}, {"status": 302, "loc": rel}, {}, {"status": 404}, {}]},
+        {"events": [["enq", 1, "GET"], ["enq", 2, "GET"], ["enq", 3, "GET"], ["take"], ["pass"], ["pass"], ["pass"], ["pass"], ["pass"], ["pass"],
+                    ["take"], ["take"], ["take"], ["pass"], ["pass"], ["pass"], ["take"], ["take"]], "replies": [{}, {}, {}]},
         # server closes after a reply; reconnectable connector (timer in passes): requests queued/popped during the cutoff
         # are sent after the reconnect; a redirect follow-up across a close too
         {"reconnect": 6, "events": _sched([1, 2, 3]), "replies": [{"status": 200, "close": True}, {"status": 200}, {"status": 200}], "drain": 30},
@@ -757,6 +799,18 @@ def gen_case(rng):
         case["redirectable"] = False
     if rng.random() < 0.2:
         case["cmethod"] = rng.choice(["HEAD", "POST", "HEAD"])
+    tk = rng.random()
+    if tk < 0.15:
+        case["take"] = "each"
+    elif tk < 0.3:
+        case["take"] = "end"
+    elif tk < 0.45:   # bursts of respond() calls in the schedule
+        ev2 = []
+        for ev in case["events"] + [["pass"]] * rng.randint(4, 14):
+            ev2.append(ev)
+            if ev[0] == "pass" and rng.random() < 0.25:
+                ev2 += [["take"]] * rng.randint(1, 3)
+        case["events"] = ev2 + [["take"]] * rng.randint(0, 3)
     if rng.random() < 0.35:   # reconnectable connector; closing servers are then much more frequent
         case["reconnect"] = rng.choice([1, 2, 4, 7, 12])
         for r in replies:
@@ -832,6 +886,9 @@ def to_coq(case, obs):
     ti = 0
     sched = list(case["events"]) + [["pass"]] * len(trace)
     for ev in sched:
+        if ev[0] == "take":
+            evs.append("HttpClient.Take")
+            continue
         if ev[0] == "enq":
             evs.append(f"(HttpClient.Enq {coq_N(ev[1])})")
             continue
@@ -857,14 +914,23 @@ def to_coq(case, obs):
             k += 1
         else:
             evs.append("(HttpClient.Pass " + refired + " None)")
+        if obs.get("taken_each"):
+            evs.append("HttpClient.Take")
+    if obs.get("taken_end"):
+        evs += ["HttpClient.Take"] * (len(obs["entries"]) + 2)
     tr = coq_list(["(%s, %s, %s, %s)" % (coq_bool(t[1]), coq_N(t[2]), coq_N(t[3]), coq_N(t[4])) for t in trace],
                   "bool * N * N * N")
-    ents = coq_list(["{| HttpClient.e_status := %s; HttpClient.e_tag := %s; HttpClient.e_errored := %s; HttpClient.e_history := %s; "
-                     "HttpClient.e_target := %s; HttpClient.e_targets := %s; HttpClient.e_pay := %s |}" % (
-        coq_N(_n(e["status"])), coq_option(_t(e["tag"]), coq_N, "N"), coq_bool(e["errored"]),
-        coq_list(["(%s, %s)" % (coq_N(_n(h[0])), coq_option(_t(h[1]), coq_N, "N")) for h in e["history"]], "N * option N"),
-        _tg(e["target"]), coq_list([_tg(x) for x in e["targets"]], "HttpClient.target"), _pay(e["pay"]))
-        for e in obs["entries"]], "HttpClient.entry")
+    def _entry(e):
+        return ("{| HttpClient.e_status := %s; HttpClient.e_tag := %s; HttpClient.e_errored := %s; HttpClient.e_history := %s; "
+                "HttpClient.e_target := %s; HttpClient.e_targets := %s; HttpClient.e_pay := %s |}" % (
+                    coq_N(_n(e["status"])), coq_option(_t(e["tag"]), coq_N, "N"), coq_bool(e["errored"]),
+                    coq_list(["(%s, %s)" % (coq_N(_n(h[0])), coq_option(_t(h[1]), coq_N, "N")) for h in e["history"]], "N * option N"),
+                    _tg(e["target"]), coq_list([_tg(x) for x in e["targets"]], "HttpClient.target"), _pay(e["pay"])))
+    ents = coq_list([_entry(e) for e in obs["entries"]], "HttpClient.entry")
+    dummy = {"status": 0, "tag": None, "errored": True, "history": [], "target": [False, 9999, []], "targets": [], "pay": [9, 9]}
+    tks = coq_list([("(@None HttpClient.entry)" if t[0] is None else
+                     "(Some %s)" % _entry(obs["entries"][t[0]] if 0 <= t[0] < len(obs["entries"]) else dummy))
+                    for t in obs.get("takes", [])], "option HttpClient.entry")
     wire = coq_list(["{| HttpClient.w_conn := %s; HttpClient.w_https := %s; HttpClient.w_host := %s; HttpClient.w_item := %s; HttpClient.w_q := %s; HttpClient.w_pay := %s |}" % (
         coq_N(w[0]), coq_bool(w[1]), coq_N(w[2]),
         ("(HttpClient.WReq %s)" if w[3] == "req" else "(HttpClient.WRedir %s)") % coq_N(w[4]), _q(w[6]), _pay(w[7])) for w in obs["wire"]],
@@ -877,7 +943,7 @@ def to_coq(case, obs):
     return ("{| HttpClient.c_reconn := " + coq_bool(bool(case.get("reconnect"))) + "; HttpClient.c_https := %s; HttpClient.c_redirectable := %s; HttpClient.c_cmethod := %s; HttpClient.c_methods := %s; "
             "HttpClient.c_qargs := %s; HttpClient.c_pathq := %s; HttpClient.c_pays := %s; "
             "HttpClient.c_events := %s; HttpClient.c_trace := %s; "
-            "HttpClient.c_entries := %s; HttpClient.c_wire := %s |}" % (
+            "HttpClient.c_entries := %s; HttpClient.c_wire := %s; HttpClient.c_takes := %s |}" % (
                 coq_bool(bool(case.get("https"))), coq_bool(case.get("redirectable", True)),
                 coq_N(METHODS.index(case.get("cmethod", "GET"))), meths, qas, pqs, pays,
-                coq_list(evs, "HttpClient.event"), tr, ents, wire))
+                coq_list(evs, "HttpClient.event"), tr, ents, wire, tks))
